@@ -5,7 +5,9 @@ EXTENDS Naturals, Sequences, FiniteSets, TLC
 Statuses == {200, 201, 204, 400, 401, 403, 404, 500, 503}
 Bodies == {"exact", "other_prefixes", "empty", "non_xml", "fault"}
 \* a 204 reply has no body
-Scripts == {[k |-> "refuse"], [k |-> "close_before"], [k |-> "close_after"], [k |-> "truncate"]}
+\* "overlong": the whole reply envelope arrives, but the headers announced more and the connection closes - a body cut
+\* short exactly behind the envelope is still a failed exchange (seed C16-f)
+Scripts == {[k |-> "refuse"], [k |-> "close_before"], [k |-> "close_after"], [k |-> "truncate"], [k |-> "overlong"]}
            \cup {[k |-> "reply", status |-> st, body |-> b] : st \in Statuses, b \in Bodies}
 Parses(b) == b \in {"exact", "other_prefixes"}
 
@@ -13,7 +15,7 @@ Parses(b) == b \in {"exact", "other_prefixes"}
 Outcome(v, c, s) ==
   IF v THEN [result |-> "err_restriction", conns |-> 0, posts |-> 0]
   ELSE IF s.k = "refuse" THEN [result |-> "err_http", conns |-> 0, posts |-> 0]
-  ELSE IF s.k \in {"close_before", "close_after", "truncate"} THEN [result |-> "err_http", conns |-> 1, posts |-> 1]
+  ELSE IF s.k \in {"close_before", "close_after", "truncate", "overlong"} THEN [result |-> "err_http", conns |-> 1, posts |-> 1]
   ELSE IF s.status >= 400 THEN [result |-> "err_http", conns |-> 1, posts |-> 1]
   ELSE IF Parses(s.body) THEN [result |-> "ok", conns |-> 1, posts |-> 1]
   ELSE [result |-> "err_yaserde", conns |-> 1, posts |-> 1]
